@@ -148,6 +148,10 @@ func (db *DB) recover() error {
 		}
 	}
 
+	// Records written by the previous session may have never been flushed:
+	// make the next sync cover every segment, not only the ones written from now on.
+	db.datalog.dirtySegments = append(db.datalog.dirtySegments[:0], segments...)
+
 	// Mark all segments except the newest as full.
 	for i := 0; i < len(segments)-1; i++ {
 		segments[i].meta.Full = true
